@@ -3,9 +3,9 @@ write site, a probe call through the public entry with a special-path argument (
 `true` = the call returned, the argument bytes were unchanged and a second call returned the same. Do not edit. -/
 namespace Gen.C20
 
-def sitesClean : List (String × Bool) := [("str_to_int", true), ("str_to_float", true), ("str_to_float_plain", true), ("str_to_float_with_missing", true), ("list_column", true), ("list_column_gz_chunks", true), ("GenotypeRowEncoding.encode", true), ("PhasedGenotypeRowEncoding.encode", true), ("genotype_column", true), ("merge_intervals", true)]
+def sitesClean : List (String × Bool) := [("str_to_int", true), ("str_to_float", true), ("str_to_float_plain", true), ("str_to_float_with_missing", true), ("list_column", true), ("list_column_gz_chunks", true), ("single_list_column_no_final_newline", true), ("single_float_list_column_gz_chunks", true), ("GenotypeRowEncoding.encode", true), ("PhasedGenotypeRowEncoding.encode", true), ("genotype_column", true), ("merge_intervals", true)]
 
 /-- np.shares_memory(source, result) of every tagged step of the heap programs (labels as in `C20.modelTags`) -/
-def stepAliasing : List (String × Bool) := [("as_encoded_array(x) of an encoded ragged x", true), ("EncodedRaggedArray.copy()", false), ("ragged[bool mask], materialised", false), ("gather through RaggedView2 (field text of a file buffer)", false), ("ragged.ravel() of contiguous data", true), ("ndarray basic slice a[:n]", true), ("np.maximum.accumulate(a)", false), ("table[bool mask] column", false), ("ndarray[bool mask]", false), ("np.bincount(a)", false), ("fresh ragged selection .copy() after ravel", false), ("str_to_int result", false), ("str_to_float result", false), ("merge_intervals result start/stop", false), ("GenotypeRowEncoding.encode result", false), ("VCF position column of a lazily read chunk, two accesses", false)]
+def stepAliasing : List (String × Bool) := [("as_encoded_array(x) of an encoded ragged x", true), ("EncodedRaggedArray.copy()", false), ("ragged[bool mask], materialised", false), ("gather through RaggedView2 (field text of a file buffer)", false), ("gather of fields lying back to back (one-column list table, separators kept)", false), ("ragged.ravel() of contiguous data", true), ("ndarray basic slice a[:n]", true), ("np.maximum.accumulate(a)", false), ("table[bool mask] column", false), ("ndarray[bool mask]", false), ("np.bincount(a)", false), ("fresh ragged selection .copy() after ravel", false), ("str_to_int result", false), ("str_to_float result", false), ("merge_intervals result start/stop", false), ("GenotypeRowEncoding.encode result", false), ("VCF position column of a lazily read chunk, two accesses", false)]
 
 end Gen.C20
